@@ -443,3 +443,12 @@ package types
 //@ func CodeToDefaultMsg
 //@   trusted message text lookup by error code (string formatting only): no state change
 //@   pure_fn
+// error values carry their code
+//@ pure errCode(e Iface) int
+//@ func NewError
+//@   trusted error value constructor: the value carries the code it was built with
+//@   pure_fn
+//@   ensures result != nil && errCode(result) == code
+//@ func TimeTrack
+//@   trusted logging of elapsed wall time only (the instant passed in never reaches any state)
+//@   pure_fn
